@@ -130,6 +130,8 @@ class Acc:
                 len(self.samples) < 2 or self.evaluations % 37 == 0
             ):
                 self.samples.append(case)
+        elif not self.samples and self.evaluations >= 3:
+            self.samples.append(case)  # never leave the evidence without an example of what was explored
         for lab in out.labels:
             self.labels[lab] += 1
         self.excluded += out.excluded
